@@ -24,7 +24,15 @@ RULE = ("generated families of cdef classes (inheritance depth 0..2; 0..5 attrib
         "a Python subclass with __dict__) x generated attribute values (boundaries, nan, cycles) x pickle "
         "protocols 0-5, copy.copy, copy.deepcopy; crafted states; modules rebuilt with a changed member list "
         "(added/removed/renamed/reordered/moved-to-base members and a 28-bit checksum collision pair). "
-        "distinct by (class layout, values, operation); non-trivial = at least one attribute or refusal rule")
+        "In the quick tier the refusing feature of each forced family is pinned to a BASE level (root of a depth-2/3 "
+        "chain or middle of a depth-3 chain). CHAIN SWEEP: class trees over 22 level kinds (no member / int / object / "
+        "typed / C array / __cinit__ with and without members / __reduce__ / __reduce_ex__ / __getstate__ / pointer / "
+        "function pointer / struct with pointer / struct / char* / auto_pickle True, False / struct+True / "
+        "__cinit__+True / __dict__ / __weakref__): every kind alone, ALL ordered (base, class) pairs, depth 3 with each "
+        "kind at the root and in the middle under plain levels x leaf auto_pickle None/True/False, random triples "
+        "(60 quick, 3500 thorough), plus subclasses of bases cimported from another module; the real "
+        "AnalyseDeclarationsTransform is run on them (pipeline cut after it) and the injected methods are read back. "
+        "distinct by (class layout, values, operation) / chain path; non-trivial = at least one attribute or refusal rule")
 EXPLANATION = ("theorems (all layouts, all values, any depth): load(reduce o) rebuilds o attribute-wise incl. "
                "inherited members and __dict__; the state tuple is the name-sorted member list on both sides and "
                "is invariant under re-ordering/moving declarations; a checksum outside the accepted set raises "
@@ -32,7 +40,12 @@ EXPLANATION = ("theorems (all layouts, all values, any depth): load(reduce o) re
                "module-level __cinit__/__reduce__ names). partial: 'different layout => error' is NOT provable "
                "(28-bit truncated digest; a concrete colliding pair is exhibited and replayed); conversion of "
                "C values and pickling of the attribute values themselves are section hypotheses; user-written "
-               "__reduce__/__getstate__ and CPython's default reduce are outside the model (tested only).")
+               "__reduce__/__getstate__ and CPython's default reduce are outside the model (tested only). "
+               "Round 2: the while-loop over the base-class chain is modelled as written (walk/decide_walk with a scope "
+               "selector per lookup) and proved equal to the declarative decision for chains of any depth; the real "
+               "methods are injected iff no level has __cinit__/__reduce__/an unconvertible member (level-wise chain rule); "
+               "the variant that looks __cinit__ up in node.scope only is characterised for every chain and refuted; "
+               "cimported bases (pxd_view) hide their __cinit__ - finding cimported_base_cinit_not_seen.")
 TRUSTED = ["pickle/copy apply a reduce value as obj = f(*args); obj.__setstate__(state) and transport attribute "
            "values faithfully (CPython contract)",
            "C <-> Python conversion of one attribute value round-trips (from_py (to_py v) = v), section hypothesis",
@@ -202,6 +215,28 @@ class Cls:
             body = ["pass"]
         return "\n".join(L + ["    " + b for b in body]) + "\n"
 
+    def source_pxd(self):
+        """declaration part for a .pxd (attributes only: methods cannot be declared there)"""
+        L = ["cdef class %s%s:" % (self.name, "(%s)" % self.base.name if self.base else "")]
+        body = []
+        if self.cdict:
+            body.append("cdef dict __dict__")
+        if self.weakref:
+            body.append("cdef object __weakref__")
+        for n, t in self.members:
+            decl, kind, pub, _ = TYPES[t]
+            body.append("cdef public int %s[3]" % n if t == "arr3" else "cdef %s%s %s" % ("public " if pub else "", decl, n))
+        return "\n".join(L + ["    " + b for b in (body or ["pass"])]) + "\n"
+
+    def source_impl(self):
+        """implementation part for the .pyx that has the matching .pxd"""
+        keep, self.members, cd, wr = self.members, [], self.cdict, self.weakref
+        self.cdict = self.weakref = False
+        try:
+            return self.source()
+        finally:
+            self.members, self.cdict, self.weakref = keep, cd, wr
+
     # -- model encoding
     def enc(self, idx):
         ms = []
@@ -284,13 +319,19 @@ def hash_table(name_lists):
 
 # --------------------------------------------------------------------------- generation
 def gen_family(rng, fam_no, force=None):
-    """a chain root -> child -> grandchild with unique attribute names"""
+    """a chain root -> child -> grandchild with unique attribute names.  force = feature name, or
+    (feature, depth, level that carries the feature) to pin the position of the feature in the chain"""
     depth = rng.choice([1, 1, 2, 2, 3])
     pool = rng.sample(NAMES, len(NAMES))
+    pinned = None
+    if isinstance(force, (tuple, list)):
+        force, depth, pinned = force[0], force[1], force[2]
     feat = force or rng.choice(["plain"] * 8 + ["cinit", "ptr", "struct", "structT", "off", "reduce", "reduce_ex",
                                               "getstate", "charp", "structp", "offroot"])
     classes, base = [], None
     special_at = 0 if feat == "getstate" else rng.randrange(depth)
+    if pinned is not None:
+        special_at = pinned
     for d in range(depth):
         nm = rng.randrange(0, 5) if d else rng.randrange(0, 6)
         members = []
@@ -672,9 +713,15 @@ def run(ctx):
     nmod, nfam = (2, 11) if quick else (14, 18)
     forced_all = ["cinit", "ptr", "struct", "structT", "off", "reduce", "reduce_ex", "getstate", "charp",
                   "structp", "offroot", "off"]
+    # quick tier: the position of the feature in the chain is pinned so that every refusal rule is met
+    # through a BASE class (root of a depth-2/3 chain, middle of a depth-3 chain) and not only through the
+    # class's own scope; the thorough tier adds the same pins to its random draw
+    pinned_all = [("cinit", 2, 0), ("ptr", 3, 1), ("struct", 2, 0), ("structT", 3, 0), ("off", 2, 1), ("reduce", 2, 0),
+                  ("reduce_ex", 3, 1), ("getstate", 2, 0), ("charp", 2, 0), ("structp", 3, 0), ("offroot", 2, 0),
+                  ("cinit", 3, 1)]
     mods = []
     for i in range(nmod):
-        forced = forced_all[i * 6:(i + 1) * 6] if quick else rng.sample(forced_all, 6)
+        forced = pinned_all[i * 6:(i + 1) * 6] if quick else (rng.sample(pinned_all, 4) + rng.sample(forced_all, 6))
         mods.append(gen_module(rng, i, nfam, forced))
     specs = [dict(name=mn, source=module_source(fams), workdir=ctx.workdir, cflags=["-O0"]) for mn, fams in mods]
     # module-level names that shadow class method lookups (lookup() walks into the module scope)
@@ -688,11 +735,15 @@ def run(ctx):
     _T0[0] = time.time()
     lay_specs, lay_state = layout_prepare(ctx)
     specs += lay_specs
+    specs.append(dict(name="c29_bt", source=BT_SOURCE, workdir=ctx.workdir, cflags=["-O0"]))
+    chain_prep = chain_prepare(ctx)
     import concurrent.futures as cf
-    with cf.ThreadPoolExecutor(max_workers=1) as ex:
+    with cf.ThreadPoolExecutor(max_workers=2) as ex:
         ct_future = ex.submit(compile_time_run, ctx)
+        chain_future = ex.submit(chain_run, ctx, chain_prep)
         built = cybuild.build_many(specs, jobs=8)
         ct_out = ct_future.result()
+        chain_out = chain_future.result()
     tick("built %d modules" % len(specs))
     for (so, err), sp in zip(built, specs):
         if err is not None:
@@ -879,6 +930,10 @@ def run(ctx):
     tick("layout done")
     compile_time(ctx, model, fl, ct_out)
     tick("compile-time done")
+    chain_compare(ctx, model, fl, chain_prep, chain_out)
+    tick("chain sweep done")
+    builtin_bases(ctx)
+    tick("builtin bases done")
     debug_dump(ctx)
 
 
@@ -1195,6 +1250,509 @@ def compile_time(ctx, model, fl, r):
                 ctx.fail("checksum_list_wrong", inp, o, want)
             if m == "COMPILE-ERROR" or got != [int(x) for x in m.split(",")]:
                 ctx.corr_break("pickle:accepted", inp, o, m)
+
+
+
+# --------------------------------------------------------------------------- inheritance-chain sweep
+# Which methods does _inject_pickle_methods inject for a class, as a function of what EVERY level of its
+# base-class chain declares?  The real transform is run on generated class trees (pipeline cut after
+# AnalyseDeclarationsTransform: no C is generated, so thousands of classes cost seconds) and the injected
+# __reduce_cython__ / __setstate_cython__ / __pyx_unpickle_<C> are read back from the tree.
+CHAIN_SCRIPT = r"""
+import sys, os, json
+import pyload; pyload.install()
+from Cython.Compiler import Main, Pipeline, Errors, Options, Nodes
+from Cython.Compiler.ParseTreeTransforms import AnalyseDeclarationsTransform
+from Cython.Compiler.Visitor import TreeVisitor
+pyload.assert_sources()
+spec = json.load(sys.stdin)
+
+class Find(TreeVisitor):
+    def __init__(self):
+        super().__init__(); self.classes = []; self.unpicklers = {}
+    def visit_Node(self, node):
+        self.visitchildren(node)
+    def visit_CClassDefNode(self, node):
+        self.classes.append(node)
+    def visit_DefNode(self, node):
+        if node.name.startswith("__pyx_unpickle_"):
+            self.unpicklers[node.name] = node
+
+class FindIn(TreeVisitor):
+    def __init__(self):
+        super().__init__(); self.calls = []; self.tuples = []
+    def visit_Node(self, node):
+        self.visitchildren(node)
+    def visit_SimpleCallNode(self, node):
+        self.calls.append(node); self.visitchildren(node)
+    def visit_TupleNode(self, node):
+        self.tuples.append(node); self.visitchildren(node)
+
+def defs_of(stat, name, out):
+    if isinstance(stat, Nodes.StatListNode):
+        for s in stat.stats:
+            defs_of(s, name, out)
+    elif isinstance(stat, Nodes.DefNode) and stat.name == name:
+        out.append(stat)
+
+def first_stat(body):
+    while isinstance(body, Nodes.StatListNode) and body.stats:
+        body = body.stats[0]
+    return body
+
+def method_shape(node, mname):
+    ds = []
+    defs_of(node.body, mname, ds)
+    if not ds:
+        return None
+    st = first_stat(ds[0].body)
+    if isinstance(st, Nodes.RaiseStatNode):
+        return ["raise", getattr(st.exc_type, "name", "?"), str(getattr(st.exc_value, "value", "?"))]
+    fi = FindIn(); fi.visit(ds[0].body)
+    state = None
+    for t in fi.tuples:
+        if all(type(a).__name__ == "AttributeNode" and getattr(a.obj, "name", None) == "self" for a in t.args):
+            state = [str(a.attribute) for a in t.args]
+            break
+    return ["real", state, [str(getattr(c.function, "name", "")) for c in fi.calls]]
+
+def analyse(path, modname):
+    d = dict(Options.get_directive_defaults()); d["language_level"] = 3
+    opts = Main.CompilationOptions(Main.default_options, compiler_directives=d)
+    context = Main.Context.from_options(opts)
+    source = Main.setup_source_object(path, ".pyx", modname, opts, context)
+    result = Main.create_default_resultobj(source, opts)
+    pipe = Pipeline.create_pyx_pipeline(context, opts, result)
+    k = [i for i, ph in enumerate(pipe) if isinstance(ph, AnalyseDeclarationsTransform)][0]
+    context.setup_errors(opts, result)
+    held = Errors.hold_errors()
+    try:
+        err, tree = Pipeline.run_pipeline(pipe[:k + 1], source)
+    finally:
+        Errors.release_errors(ignore=True)
+    out = {"err": None if err is None else (type(err).__name__ + ": " + str(err))[:400],
+           "errors": [[e.position[1] if e.position else None, str(e.message_only)] for e in held], "classes": {}}
+    if tree is None or err is not None:
+        return out
+    f = Find(); f.visit(tree)
+    for node in f.classes:
+        sc = node.scope
+        ent = {"line": node.pos[1],
+               "has_rc": sc.lookup_here("__reduce_cython__") is not None,
+               "has_ss": sc.lookup_here("__setstate_cython__") is not None,
+               "rc": method_shape(node, "__reduce_cython__"), "ss": method_shape(node, "__setstate_cython__"),
+               "unp": None}
+        un = f.unpicklers.get("__pyx_unpickle_" + node.class_name)
+        if un is not None:
+            fi = FindIn(); fi.visit(un.body)
+            for c in fi.calls:
+                if getattr(c.function, "name", "") == "__Pyx_CheckUnpickleChecksum":
+                    a = c.args
+                    ent["unp"] = [[str(x.value) for x in a[1:4]], a[4].value.decode("utf-8") if isinstance(a[4].value, bytes)
+                                  else str(a[4].value)]
+            ent["unp_entry"] = tree.scope.lookup_here("__pyx_unpickle_" + node.class_name) is not None
+        out["classes"][node.class_name] = ent
+    return out
+
+for fname, text in (spec.get("files") or {}).items():
+    with open(os.path.join(os.getcwd(), fname), "w") as fh:
+        fh.write(text)
+res = []
+for modname, src in spec["mods"]:
+    path = os.path.join(os.getcwd(), modname + ".pyx")
+    with open(path, "w") as fh:
+        fh.write(src)
+    try:
+        res.append(analyse(path, modname))
+    except BaseException as e:
+        res.append({"err": "SCRIPT " + type(e).__name__ + ": " + str(e)[:400], "errors": [], "classes": {}})
+print(json.dumps(res))
+"""
+
+CHAIN_HEADER = """# cython: language_level=3
+cimport cython
+cdef struct S:
+    int a
+    double b
+cdef struct SP:
+    int* p
+ctypedef void (*FP)()
+"""
+
+# one level of a chain: (tag, member type keys, flags).  Every decision-relevant kind of declaration:
+# none / convertible C and object members / C array / __cinit__ / user __reduce__ family / user __getstate__ /
+# unconvertible members (pointer, function pointer, struct holding a pointer, char*) / struct /
+# auto_pickle True, False / __dict__ / __weakref__
+LEVELS = [
+    ("empty", [], {}),
+    ("int", ["int"], {}),
+    ("obj", ["object"], {}),
+    ("typed", ["double", "str", "list"], {}),
+    ("arr", ["arr3", "ucs4"], {}),
+    ("cinit", ["int"], {"cinit": True}),
+    ("cinit0", [], {"cinit": True}),
+    ("reduce", ["int"], {"reduce": "__reduce__"}),
+    ("reduce_ex", [], {"reduce": "__reduce_ex__"}),
+    ("getstate", ["object"], {"getstate": True}),
+    ("ptr", ["intp"], {}),
+    ("funcp", ["funcp", "int"], {}),
+    ("structp", ["structp"], {}),
+    ("struct", ["struct"], {}),
+    ("charp", ["charp"], {}),
+    ("autoT", ["int"], {"auto": True}),
+    ("autoF", ["int"], {"auto": False}),
+    ("autoF0", [], {"auto": False}),
+    ("structT", ["struct", "object"], {"auto": True}),
+    ("cinitT", ["int"], {"auto": True, "cinit": True}),
+    ("dict", ["object"], {"cdict": True}),
+    ("weakref", ["int"], {"weakref": True}),
+]
+CHAIN_LETTERS = "qazwsxedcrfvtgbyhnujm"
+
+
+def chain_class(path, base):
+    """the class for a path of LEVELS indices (root first); base = class of path[:-1]"""
+    d = len(path) - 1
+    tag, types, fl = LEVELS[path[-1]]
+    members = []
+    for j, t in enumerate(types):
+        letter = CHAIN_LETTERS[(path[-1] * 3 + d * 5 + j * 7) % len(CHAIN_LETTERS)]
+        members.append(("%s%d%s" % (letter, d, j or ""), t))
+    c = Cls("T" + "_".join(str(i) for i in path), base, members, cinit=fl.get("cinit", False),
+            reduce=fl.get("reduce", ""), getstate=fl.get("getstate", False), auto=fl.get("auto"),
+            cdict=fl.get("cdict", False), weakref=fl.get("weakref", False))
+    c.path = tuple(path)
+    return c
+
+
+def chain_paths(ctx):
+    """paths of level indices, prefix-closed.  quick: every level kind alone, every ordered PAIR of kinds
+    (depth 2: the feature in the base vs in the class), and depth 3 with each kind at the root / in the middle
+    under plain levels and the three auto_pickle settings of the leaf, plus random triples.  thorough: a large
+    random sample of all triples in addition."""
+    rng = ctx.rng
+    n = len(LEVELS)
+    idx = {t[0]: i for i, t in enumerate(LEVELS)}
+    paths = set()
+    for a in range(n):
+        paths.add((a,))
+        for b in range(n):
+            paths.add((a, b))
+    leaves = [idx["obj"], idx["autoT"], idx["autoF"]]
+    plain = [idx["int"], idx["empty"]]
+    for v in range(n):
+        for p in plain:
+            for l in leaves:
+                paths.add((v, p, l))
+                paths.add((p, v, l))
+                paths.add((p, p, v))
+    nrand = 60 if ctx.tier == "quick" else 3500
+    for _ in range(nrand):
+        paths.add((rng.randrange(n), rng.randrange(n), rng.randrange(n)))
+
+    def ok(path):
+        for flag in ("cdict", "weakref"):
+            if sum(1 for i in path if LEVELS[i][2].get(flag)) > 1:
+                return False
+        return True
+    return sorted(p for p in paths if ok(p))
+
+
+def chain_prepare(ctx):
+    paths = chain_paths(ctx)
+    by_path = {}
+    for p in sorted(paths, key=lambda q: (len(q), q)):
+        by_path[p] = chain_class(p, by_path.get(p[:-1]))
+    # a class lives in the module of its root kind; a few root kinds per module
+    per_mod = 4 if ctx.tier == "quick" else 2
+    mods = {}
+    for p in sorted(by_path, key=lambda q: (len(q), q)):
+        mods.setdefault("c29_chain%d" % (p[0] // per_mod), []).append(by_path[p])
+    out = []
+    for mn in sorted(mods):
+        src = CHAIN_HEADER + "\n".join(c.source() for c in mods[mn])
+        out.append((mn, src, mods[mn]))
+    xm = xmod_prepare(ctx)
+    ctx.c29_xfiles = xm["files"]
+    out += xm["mods"]
+    return out
+
+
+XB_KINDS = ["int", "obj", "cinit", "cinit0", "reduce", "ptr", "struct", "autoF", "getstate", "dict"]
+XD_LEAVES = ["obj", "empty", "autoT", "autoF", "cinit", "struct", "reduce_ex"]
+XHEADER_DECLS = """cdef struct S:
+    int a
+    double b
+cdef struct SP:
+    int* p
+ctypedef void (*FP)()
+"""
+
+
+def xmod_prepare(ctx):
+    """bases declared in c29_xbase.pxd / implemented in c29_xbase.pyx, subclasses in c29_xder.pyx which
+    cimports them: the compiler of c29_xder sees of a base only what the .pxd holds (its attributes)"""
+    idx = {t[0]: i for i, t in enumerate(LEVELS)}
+    bases, ders = [], []
+    for b in XB_KINDS:
+        cb = chain_class((idx[b],), None)
+        cb.name = "XB_" + b
+        cb.external = True
+        bases.append(cb)
+        for l in XD_LEAVES:
+            if LEVELS[idx[l]][2].get("cdict") and cb.cdict:
+                continue
+            cd = chain_class((idx[b], idx[l]), cb)
+            cd.name = "XD_%s_%s" % (b, l)
+            ders.append(cd)
+            if l == "empty":
+                for l2 in ("obj", "autoT"):
+                    c3 = chain_class((idx[b], idx[l], idx[l2]), cd)
+                    c3.name = "XD_%s_%s_%s" % (b, l, l2)
+                    ders.append(c3)
+    pxd = XHEADER_DECLS + "\n".join(c.source_pxd() for c in bases)
+    pyx = "# cython: language_level=3\ncimport cython\n" + "\n".join(c.source_impl() for c in bases)
+    der = ("# cython: language_level=3\ncimport cython\nfrom c29_xbase cimport S, SP, FP, %s\n" % ", ".join(c.name for c in bases)
+           + "\n".join(c.source() for c in ders))
+    return {"files": {"c29_xbase.pxd": pxd}, "mods": [("c29_xbase", pyx, bases), ("c29_xder", der, ders)]}
+
+
+def pxd_view(c):
+    """what the compiler of another module can see of a class: the chain with the methods of cimported levels
+    hidden (model side: P_PickleChain.pxd_view)"""
+    if c is None:
+        return None
+    b = pxd_view(c.base)
+    if getattr(c, "external", False):
+        v = Cls(c.name, b, c.members, auto=c.auto, cdict=c.cdict, weakref=c.weakref)
+    else:
+        v = Cls(c.name, b, c.members, cinit=c.cinit, reduce=c.reduce, getstate=c.getstate, auto=c.auto,
+                cdict=c.cdict, weakref=c.weakref)
+    return v
+
+
+def chain_run(ctx, prep):
+    return cybuild.run_script(CHAIN_SCRIPT, os.path.join(ctx.workdir, "chain"),
+                              {"mods": [[mn, src] for mn, src, _ in prep], "files": getattr(ctx, "c29_xfiles", {})},
+                              name="c29_chain.py", timeout=2400)
+
+
+def chain_observed(ent, errors_at):
+    """decision read back from the tree, in the notation of the model driver, or ('?', why)"""
+    rc, ss = ent["rc"], ent["ss"]
+    if rc is None and ss is None and not ent["has_rc"] and not ent["has_ss"] and ent["unp"] is None:
+        return "N", None
+    if rc is None or ss is None or not ent["has_rc"] or not ent["has_ss"]:
+        return "?", "only one of __reduce_cython__/__setstate_cython__ injected"
+    if rc[0] == "raise":
+        if ss[0] != "raise" or ss[1:] != rc[1:] or rc[1] != "TypeError":
+            return "?", "the two raising methods differ or do not raise TypeError"
+        if ent["unp"] is not None:
+            return "?", "raising methods together with an unpickle function"
+        reason = [k for k, t in REASON_MSG if t in rc[2]]
+        cul = re.findall(r"self\.([^\s,]+)", rc[2])
+        return "R %s %s" % (reason[0] if len(reason) == 1 else "?", ",".join(cul) or "-"), rc[2]
+    if ss[0] != "real" or ent["unp"] is None or not ent.get("unp_entry"):
+        return "?", "real __reduce_cython__ without real __setstate_cython__ / unpickle function"
+    names = [x for x in ent["unp"][1].split(", ") if x]
+    if rc[1] is not None and rc[1] != names:
+        return "?", "state tuple %r differs from the checksum member list %r" % (rc[1], names)
+    return "P " + (",".join(names) or "-"), None
+
+
+def chain_decode(s):
+    """model driver notation -> readable names"""
+    parts = s.split(" ")
+    if parts[0] in ("R", "P") and parts[-1] != "-":
+        parts[-1] = ",".join(decname(x) for x in parts[-1].split(","))
+    return " ".join(parts)
+
+
+def chain_compare(ctx, model, fl, prep, out):
+    res = out["json"]
+    if not isinstance(res, list) or len(res) != len(prep):
+        ctx.corr_break("pickle:chain_script", "chain sweep script", (out["err"] or "")[-800:], "one result per module")
+        return
+    qd, qw, items = [], [], []
+    for (mn, src, classes), r in zip(prep, res):
+        if r.get("err"):
+            ctx.corr_break("pickle:chain_module", {"module": mn, "source": src[:3000]}, r["err"], "analysed module")
+            continue
+        errs = {}
+        for line, msg in r["errors"]:
+            errs.setdefault(line, []).append(msg)
+        lines = {ent["line"]: n for n, ent in r["classes"].items()}
+        stray = [(l, m) for l, ms in errs.items() if l not in lines for m in ms]
+        if stray:
+            ctx.corr_break("pickle:chain_errors", {"module": mn}, stray[:5], "errors only at class definitions")
+        for c in classes:
+            ids = {k.name: i + 1 for i, k in enumerate(reversed(c.chain()))}
+            # a class of another module sees its cimported bases through the .pxd only
+            h = enc_hier(c if getattr(c, "external", False) else pxd_view(c), ids)
+            qd.append("decide %s 00 %s" % (fl, h))
+            qw.append("walk 0 %s 00 %s" % (fl, h))
+            items.append((mn, c, r["classes"].get(c.name), errs))
+    md, mw = model.batch(qd), model.batch(qw)
+    nchk = 0
+    variant_hits, variant_q = [], []
+    for (mn, c, ent, errs), d_m, w_m in zip(items, md, mw):
+        ch = c.chain()
+        tags = [LEVELS[i][0] for i in c.path]
+        inp = {"module": mn, "class": c.name, "levels_root_first": tags,
+               "source": CHAIN_HEADER + "".join(k.source() for k in reversed(ch))}
+        if any(getattr(k, "external", False) for k in ch[1:]):
+            inp["cimported_levels"] = [k.name for k in ch if getattr(k, "external", False)]
+        rule = doc_rule_static(c)                    # documented rule on the TRUE chain: RT / TE / NONE
+        hidden = [] if getattr(c, "external", False) else [k for k in ch[1:] if getattr(k, "external", False)]
+        hidden_cinit = any(k.cinit for k in hidden)
+        hidden_reduce = any(k.reduce for k in hidden)
+        ctx.case("chain%s/d%d/%s/%s" % ("x" if hidden else "", len(ch), rule, tags[-1] if len(ch) == 1 else
+                                      "+".join(sorted(set(t for t in tags if t not in ("int", "empty", "obj"))) or ["plain"])),
+                 inp, sig=("chain", c.path))
+        if ent is None:
+            ctx.corr_break("pickle:chain_class_missing", inp, None, d_m)
+            continue
+        obs, detail = chain_observed(ent, errs)
+        ce_obs = bool(errs.get(ent["line"]))
+        ce_mod = d_m.endswith(" CE")
+        dec_mod = chain_decode(d_m[:-3] if ce_mod else d_m)
+        # ---- property oracle (documentation + the source comments): kind of what is injected
+        want_kind = {"RT": "P", "TE": "R", "NONE": "N"}[rule]
+        if hidden_reduce and obs[0] == "P":
+            pass    # documented in the source: a cimported base's __reduce__ is unknown at compile time, the real
+                    # __reduce_cython__ is generated and __Pyx_setup_reduce leaves the inherited __reduce__ alone
+        elif rule == "NONE" and c.auto is not False and obs[0] != "?":
+            pass    # a user __reduce__/__reduce_ex__ in the chain: whatever is generated is never installed
+                    # (__Pyx_setup_reduce); only the tie to the model below constrains the code here
+        elif obs[0] != want_kind:
+            ctx.fail("cimported_base_cinit_not_seen" if hidden_cinit else "autopickle_decision_violation",
+                     inp, {"injected": obs, "detail": detail},
+                     {"RT": "real __reduce_cython__/__setstate_cython__ (picklable)",
+                      "TE": "TypeError-raising __reduce_cython__/__setstate_cython__",
+                      "NONE": "nothing injected"}[rule],
+                     note="a level of the base-class chain is not taken into account" if len(ch) > 1 else "")
+        elif rule == "RT":
+            exp_names = [n for n, _ in c.all_members()]
+            if obs != "P " + (",".join(exp_names) or "-"):
+                ctx.fail("member_order_not_sorted", inp, obs, exp_names)
+            got = [int(x, 16) for x in ent["unp"][0]]
+            if got != checksums_of(exp_names):
+                ctx.fail("checksum_mismatch_hashlib", inp, got, checksums_of(exp_names))
+            nchk += 1
+        if (rule == "TE" and c.auto is True) != ce_obs:
+            ctx.fail("cimported_base_cinit_not_seen" if hidden_cinit else "forced_autopickle_compile",
+                     inp, {"errors": errs.get(ent["line"])},
+                     "compile error" if (rule == "TE" and c.auto is True) else "no error")
+        if ce_obs and obs[0] == "R" and detail not in errs.get(ent["line"], []):
+            ctx.fail("forced_autopickle_compile", inp, errs.get(ent["line"]), detail)
+        # ---- ties: declarative model and the loop model
+        if obs != dec_mod or ce_obs != ce_mod:
+            ctx.corr_break("pickle:chain_decide", inp, [obs, ce_obs], d_m)
+            if len(variant_hits) < 40:
+                variant_hits.append(c.name)
+                variant_q.append((c.name, obs, "walk 1 %s 00 %s" % (fl, enc_hier(c, {k.name: i + 1 for i, k in enumerate(reversed(ch))})),
+                                  "walk 2 %s 00 %s" % (fl, enc_hier(c, {k.name: i + 1 for i, k in enumerate(reversed(ch))}))))
+        if w_m != (d_m[:-3] if ce_mod else d_m):
+            ctx.corr_break("pickle:chain_walk", inp, w_m, d_m)
+    if variant_q:
+        # diagnosis: which mis-scoped variant of the loop (proved wrong in Prop/C29.v) the code behaves like
+        r1 = model.batch([q[2] for q in variant_q])
+        r2 = model.batch([q[3] for q in variant_q])
+        n1 = sum(1 for q, a in zip(variant_q, r1) if chain_decode(a) == q[1])
+        n2 = sum(1 for q, a in zip(variant_q, r2) if chain_decode(a) == q[1])
+        ctx.note("chain sweep diagnosis: of %d mismatching classes %d behave like the variant that looks __cinit__ up "
+                 "in node.scope only (C29_own_scope_variant_spec), %d like the variant that looks __reduce__ up in "
+                 "node.scope only" % (len(variant_q), n1, n2))
+    ctx.note("chain sweep: %d classes (depth 1..3 over %d level kinds) analysed by the real transform; %d member "
+             "lists/checksums compared" % (len(items), len(LEVELS), nchk))
+    ctx.extra.setdefault("exhaustive_domains", []).append(
+        "C29 chain sweep: all %d level kinds x all %d ordered (base, class) pairs" % (len(LEVELS), len(LEVELS) ** 2))
+
+
+
+# --------------------------------------------------------------------------- builtin base types
+# cdef classes that inherit from a builtin type: base_type is a builtin whose scope has no var_entries and whose
+# instance state (list items, dict items, exception args) is not an attribute.  Outside the Coq model (it has no
+# notion of base-type content): implementation vs the property oracle only.
+BT_SOURCE = """# cython: language_level=3
+cdef class BtList(list):
+    cdef public int a
+    cdef public object o
+cdef class BtDict(dict):
+    cdef public object o
+cdef class BtSet(set):
+    cdef public int a
+cdef class BtExc(Exception):
+    cdef public int code
+cdef class BtPlainList(list):
+    pass
+cdef class BtCtl:
+    cdef public int a
+    cdef public object o
+"""
+BT_SCRIPT = r"""
+import sys, json, pickle, copy, c29_bt as m
+def mk(name):
+    if name == "BtList":
+        o = m.BtList([1, [2], "x"]); o.a = 5; o.o = "obj"
+    elif name == "BtDict":
+        o = m.BtDict(k=[1], z=2); o.o = (1, 2)
+    elif name == "BtSet":
+        o = m.BtSet({1, 2, 3}); o.a = -7
+    elif name == "BtExc":
+        o = m.BtExc("msg", 2); o.code = 9
+    elif name == "BtPlainList":
+        o = m.BtPlainList([4, 5])
+    else:
+        o = m.BtCtl(); o.a = 11; o.o = [1]
+    return o
+def show(o):
+    d = {"type": type(o).__name__}
+    for n in ("a", "o", "code"):
+        if hasattr(o, n):
+            d[n] = repr(getattr(o, n))
+    if isinstance(o, (list, dict)):
+        d["content"] = repr(o.copy() if isinstance(o, dict) else list(o))
+    elif isinstance(o, set):
+        d["content"] = repr(sorted(o))
+    elif isinstance(o, BaseException):
+        d["content"] = repr(o.args)
+    return d
+out = []
+for name in json.load(sys.stdin):
+    o = mk(name)
+    row = {"cls": name, "before": show(o), "ops": {}}
+    for op in ("p0", "p1", "p2", "p3", "p4", "p5", "copy", "deepcopy"):
+        try:
+            n = copy.copy(o) if op == "copy" else copy.deepcopy(o) if op == "deepcopy" else pickle.loads(pickle.dumps(o, int(op[1:])))
+            row["ops"][op] = show(n)
+        except BaseException as e:
+            row["ops"][op] = {"exc": type(e).__name__, "mro": [t.__name__ for t in type(e).__mro__], "msg": str(e)[:200]}
+    out.append(row)
+print(json.dumps(out))
+"""
+BT_CLASSES = ["BtList", "BtDict", "BtSet", "BtExc", "BtPlainList", "BtCtl"]
+
+
+def builtin_bases(ctx):
+    r = cybuild.run_script(BT_SCRIPT, ctx.workdir, BT_CLASSES, name="c29_bt_run.py", timeout=600)
+    rows = r["json"]
+    if not isinstance(rows, list):
+        ctx.corr_break("pickle:builtin_base_script", "builtin base script", (r["err"] or "")[-600:], "results")
+        return
+    for row in rows:
+        name = row["cls"]
+        for op, after in row["ops"].items():
+            inp = {"class": name, "op": op, "source": BT_SOURCE}
+            ctx.case("builtin_base/%s/%s" % (name, op), inp, sig=("bt", name, op))
+            if "exc" in after:
+                if "TypeError" not in after.get("mro", []):
+                    ctx.fail("builtin_base_roundtrip", inp, after, "round trip or TypeError")
+                continue
+            if after != row["before"]:
+                klass = ("builtin_container_base_content_dropped" if name in ("BtList", "BtDict", "BtPlainList")
+                         else "builtin_base_own_reduce_cdef_attribute_dropped" if name in ("BtExc", "BtSet") else "roundtrip_violation")
+                ctx.fail(klass, inp, after, row["before"])
 
 
 def replay(ctx, obj):
